@@ -336,6 +336,7 @@ def setup():
         core.write_if_changed(os.path.join(LEAN, "CryoCat", "Audit", f"{cid}.lean"),
                               f"import CryoCat.Props.{cid}\n" + "".join(f"#print axioms {n}\n" for n in names))
     with core.Lock():
+        core.regen_roots()
         rc, out = core.sh(["lake", "build"], cwd=LEAN)
     print(out[-3000:])
     return 0 if rc == 0 else 2
